@@ -28,16 +28,6 @@ use vcore::{pick, CaseResult, Failure};
 
 pub const S: usize = 0;
 
-/// development aid: append a line to the file named by C03_DEBUG_END
-pub fn dbg_line(l: &str) {
-	if let Ok(p) = std::env::var("C03_DEBUG_END") {
-		use std::io::Write;
-		if let Ok(mut f) = std::fs::OpenOptions::new().create(true).append(true).open(p) {
-			let _ = writeln!(f, "{}", l);
-		}
-	}
-}
-
 fn fail(oracle: &str, detail: String) -> Failure {
 	Failure::new(oracle, detail)
 }
@@ -195,22 +185,25 @@ impl Sim {
 		Some((Route { paths, route_params }, to, nodes0))
 	}
 
-	/// Explicit (multi-)path payment. `tweak`: 0 none, 1 first hop pays the next forwarder 1..n msat too little,
-	/// 2 first hop grants one block less than the forwarder's cltv_expiry_delta.
+	/// Explicit (multi-)path payment. `tweak`: 0 none, 1/3 the first/second forwarder is paid too little,
+	/// 2/4 it is granted one block less than its cltv_expiry_delta.
 	pub fn c03_send_explicit(&mut self, parts: &[(Vec<usize>, u64)], tweak: u8) -> Option<(usize, PaymentId, String, bool)> {
 		let (mut route, to, nodes) = self.c03_build_multi(parts)?;
 		if tweak != 0 {
+			// hop k carries the fee / cltv budget of the forwarder that follows it; tweaks 3 and 4 hit the second
+			// forwarder of a three-hop path
 			let h = &mut route.paths[0].hops;
-			if h.len() < 2 {
+			let k = if tweak >= 3 { 1 } else { 0 };
+			if h.len() < k + 2 {
 				return None;
 			}
-			if tweak == 1 {
-				if h[0].fee_msat == 0 {
+			if tweak % 2 == 1 {
+				if h[k].fee_msat == 0 {
 					return None;
 				}
-				h[0].fee_msat -= 1 + (h[0].fee_msat - 1) / 2;
+				h[k].fee_msat -= 1 + (h[k].fee_msat - 1) / 2;
 			} else {
-				h[0].cltv_expiry_delta -= 1;
+				h[k].cltv_expiry_delta -= 1;
 			}
 		}
 		let (preimage, hash, secret) = get_payment_preimage_hash(&self.w.nodes[to], None, None);
@@ -481,7 +474,7 @@ pub fn xop_strategy(w: XWeights) -> BoxedStrategy<XOp> {
 	let mut v: Vec<(u32, BoxedStrategy<XOp>)> = vec![
 		(base_total, if base_total > 0 { op_strategy(w.base.clone()).prop_map(XOp::Base).boxed() } else { Just(XOp::SnapshotS).boxed() }),
 		(w.send_route, (any::<u16>(), amt_strategy()).prop_map(|(route, amt)| XOp::SendRoute { route, amt, tweak: 0 }).boxed()),
-		(w.underpay, (any::<u16>(), amt_strategy(), 1u8..=2).prop_map(|(route, amt, tweak)| XOp::SendRoute { route, amt, tweak }).boxed()),
+		(w.underpay, (any::<u16>(), amt_strategy(), 1u8..=4).prop_map(|(route, amt, tweak)| XOp::SendRoute { route, amt, tweak }).boxed()),
 		(w.mpp, (any::<u16>(), amt_strategy(), any::<u16>()).prop_map(|(shape, amt, split)| XOp::SendMpp { shape, amt, split }).boxed()),
 		(w.router, (proptest::bool::weighted(0.8), amt_strategy(), 0u8..4, any::<bool>()).prop_map(|(far, amt, retries, mpp)| XOp::SendRouter { far, amt, retries, mpp }).boxed()),
 		(w.keysend, (proptest::bool::weighted(0.8), amt_strategy(), 0u8..3).prop_map(|(far, amt, retries)| XOp::Keysend { far, amt, retries }).boxed()),
@@ -533,7 +526,6 @@ pub struct PayMeta {
 struct Htlc {
 	hash: PaymentHash,
 	amt: u64,
-	emit_step: u64,
 	/// node that generated the failure travelling back over this HTLC
 	fail_origin: Option<usize>,
 	malformed: bool,
@@ -1013,7 +1005,6 @@ impl C03 {
 						self.htlcs.entry((m.channel_id, from, m.htlc_id)).or_insert(Htlc {
 							hash: m.payment_hash,
 							amt: m.amount_msat,
-							emit_step: at,
 							fail_origin: None,
 							malformed: false,
 							fail_delivered: false,
@@ -1501,7 +1492,6 @@ impl C03 {
 	/// (0 claim, 1 fail back, 2 ignore until it times out), mine until nothing is left on chain or in flight
 	/// (bounded). Returns true if quiescent with chain resolution complete.
 	pub fn end_game(&mut self, sim: &mut Sim, choices: &[u8], max_blocks: u32) -> Result<bool, Failure> {
-		let t0 = std::time::Instant::now();
 		let mut quiet = sim.c03_settle(40);
 		self.step(sim)?;
 		for _ in 0..3 {
@@ -1564,16 +1554,9 @@ impl C03 {
 		let _ = quiet;
 		quiet = sim.c03_settle(30);
 		self.step(sim)?;
-		if std::env::var("C03_DEBUG_END").is_ok() {
-			for tx in sim.chain.mempool.iter() {
-				dbg_line(&format!("END mempool tx {} ins {:?} verdict {:?}", tx.compute_txid(), tx.input.iter().map(|i| i.previous_output).collect::<Vec<_>>(), sim.chain.check_tx(tx, sim.chain.height() + 1, &std::collections::HashMap::new(), false)));
-			}
-		}
 		let (ids, hashes) = sim.c03_inflight();
 		if !quiet {
 			self.label("end:settle-not-quiescent");
-			let tail: Vec<String> = sim.log.iter().rev().take(6).map(|(s, e)| format!("{} {}", s, format!("{:?}", e).chars().take(140).collect::<String>())).collect();
-			dbg_line(&format!("NOTQUIET pending_updates {:?} queued {} tail {:#?}", (0..sim.w.n).map(|i| sim.w.pending_updates(i).len()).collect::<Vec<_>>(), sim.total_queued(), tail));
 		}
 		if !sim.chain.mempool.is_empty() {
 			self.label("end:mempool-not-empty");
@@ -1590,7 +1573,6 @@ impl C03 {
 				}
 			}
 		}
-		dbg_line(&format!("TIMING end_game {} ms mined {} nodes {}", t0.elapsed().as_millis(), mined, sim.w.n));
 		self.label(&format!("end:blocks-mined:{}", if mined == 0 { "0" } else if mined < 50 { "<50" } else if mined < 200 { "<200" } else if mined < max_blocks { "<max" } else { "max" }));
 		Ok(quiet && !sim.c03_chain_unresolved())
 	}
